@@ -802,6 +802,26 @@ fn replay_response(rt: &Runtime, v: &Value, rep: &mut Report) {
     if want["ctrls"].as_array().map(|a| !a.is_empty()).unwrap_or(false) {
         rep.count("resp:with-controls");
     }
+    // a Search answered with a SearchResultReference first (minimal encoding of the final result): search() appends the
+    // reference URIs to the result's own referral list, which must survive
+    let pre = bytes_of(&v["pre"]);
+    if op == "search" && !pre.is_empty() {
+        let want_pre = &v["expect_pre"];
+        rep.count("resp:search-with-reference-message");
+        let (o, drv) = rt.block_on(async {
+            let mut c = open(0);
+            c.ldap.verif_set_msgmap((id - 1) as i32, &[]);
+            let mut bytes = pre.clone();
+            bytes.extend_from_slice(&min);
+            let o = run_round(&mut c, &round, &mut |_raw| Some(bytes.clone())).await;
+            (o, close(c).await)
+        });
+        rep.eval(true, hash_of(&pre));
+        if !(o.out == "answered" && o.ret.as_ref() == Some(want_pre)) {
+            let what = if o.out != "answered" { format!("no-result-{}", o.out) } else { ret_diff(want_pre, o.ret.as_ref().unwrap()) };
+            rep.mismatch(&format!("c03:search-after-reference:{}", what), json!({"operation": op, "reference_bytes": hex(&pre), "response_bytes": hex(&min), "expected": want_pre, "returned": o.ret, "out": o.out, "driver": drv}));
+        }
+    }
     let results: Vec<(Obs, &'static str)> = rt.block_on(async {
         let mut out = vec![];
         let mut c = open(0);
